@@ -1,5 +1,5 @@
 import Dagrt.Driver.ExprJson
-import Dagrt.Model.Builtins
+import Dagrt.Model.RtKinds
 namespace Dagrt.Driver.Kinds
 open Lean Dagrt.Driver Dagrt.Kinds Dagrt
 
@@ -68,6 +68,28 @@ def tableJ (t : Table) : Json :=
   let items := t.entries.foldl (fun acc ((sc, n), k) => insertSorted (sc ++ "|" ++ n, kindJ k) acc) []
   jarr (items.map fun (k, v) => jarr [jstr k, v])
 
+def rtOf (j : Json) : R Rt :=
+  match j with
+  | .str "bool" => pure .bool | .str "int" => pure .int | .str "real" => pure .real | .str "cplx" => pure .cplx
+  | .arr #[.str "arr", c] => do pure (.arr (← bool? c))
+  | .arr #[.str "user", .str i] => pure (.user i)
+  | .str "none" => pure .none | .str "err" => pure .err
+  | _ => throw s!"bad rt {j.compress}"
+
+def rtJ : Rt → Json
+  | .bool => jstr "bool" | .int => jstr "int" | .real => jstr "real" | .cplx => jstr "cplx"
+  | .arr c => jarr [jstr "arr", jbool c] | .user i => jarr [jstr "user", jstr i]
+  | .none => jstr "none" | .err => jstr "err"
+
+/-- straight-line run over run-time kinds: `[lhs, hasSub, expr, loops]` per statement -/
+def rtRun (F : RtFuns) : List (Name × Bool × Expr × List Name) → (Name → Rt) → List Json → List Json
+  | [], _, acc => acc
+  | (lhs, hasSub, e, loops) :: rest, ρ, acc =>
+    let ρl : Name → Rt := fun x => if loops.contains x then .int else ρ x
+    let v := rtEval F ρl e
+    bif hasSub then rtRun F rest ρ (acc ++ [jarr [jstr lhs, jstr "elem", rtJ v]])
+    else rtRun F rest (fun x => if x = lhs then v else ρ x) (acc ++ [jarr [jstr lhs, rtJ v]])
+
 def handle (op : String) (j : Json) : R Json := do
   match op with
   | "unify" =>
@@ -88,11 +110,30 @@ def handle (op : String) (j : Json) : R Json := do
     let kw ← listOf (fun p => match p with
       | .arr #[.str k, v] => do pure (k, ← kindOf v)
       | _ => throw "bad kw kind") (← field j "kw")
+    let chk := match j.getObjVal? "check" with
+      | .ok (.bool b) => b
+      | _ => false
     match builtin f with
     | none => pure (jobj [("err", jstr "FunctionNotFound")])
-    | some fn => match fn pos kw with
+    | some fn => match fn chk pos kw with
       | .ok ks => pure (jobj [("ok", jarr (ks.map kindJ))])
       | .error e => pure (jobj [("err", errJ e)])
+  | "rt" =>
+    let prog ← listOf (fun p => match p with
+      | .arr #[.str lhs, hasSub, e, loops] => do pure (lhs, ← bool? hasSub, ← exprOf e, ← listOf str? loops)
+      | _ => throw "bad rt stmt") (← field j "prog")
+    let init ← listOf (fun p => match p with
+      | .arr #[.str n, r] => do pure (n, ← rtOf r)
+      | _ => throw "bad init") (← field j "init")
+    let ufs ← listOf (fun p => match p with
+      | .arr #[.str f, rs] => do pure (f, ← listOf rtOf rs)
+      | _ => throw "bad rt func") (← field j "rtfuncs")
+    let F : RtFuns := fun f pos kw =>
+      match rtBuiltin f pos kw with
+      | some r => r
+      | none => (ufs.lookup f).getD [.err]
+    let ρ0 : Name → Rt := fun x => (init.lookup x).getD .none
+    pure (jobj [("rt", jarr (rtRun F prog ρ0 []))])
   | _ => throw s!"unknown op kinds.{op}"
 
 end Dagrt.Driver.Kinds
